@@ -32,14 +32,15 @@ cp $out/zz_seed_demo_test.go $wt/$demo_path
 if timeout 300 go test -vet=off -count=1 -run 'TestSeedDemo$' $pkg >>$log 2>&1; then fail "demo passes with patch"; fi
 rm -f $wt/$demo_path $out/suite.json
 git checkout -q -- .
-if [ -d /verif/seeded/$id ]; then n=1; while [ -e /verif/seeded/${id}_superseded$n ]; do n=$((n+1)); done; mv /verif/seeded/$id /verif/seeded/${id}_superseded$n; fi
-mkdir -p /verif/seeded/$id
-cp $out/patch.diff $out/zz_seed_demo_test.go $out/demo_path.txt /verif/seeded/$id/
-python3 - $out/meta.json /verif/seeded/$id/meta.json <<'PY'
+dst=$id${SEEDSUFFIX:-}
+if [ -z "${SEEDSUFFIX:-}" ] && [ -d /verif/seeded/$id ]; then n=1; while [ -e /verif/seeded/${id}_superseded$n ]; do n=$((n+1)); done; mv /verif/seeded/$id /verif/seeded/${id}_superseded$n; fi
+rm -rf /verif/seeded/$dst; mkdir -p /verif/seeded/$dst
+cp $out/patch.diff $out/zz_seed_demo_test.go $out/demo_path.txt /verif/seeded/$dst/
+python3 - $out/meta.json /verif/seeded/$dst/meta.json <<'PY'
 import json,sys,subprocess
 m=json.load(open(sys.argv[1]))
 m['base_commit']=subprocess.check_output(['git','-C','/repo','rev-parse','--short','HEAD']).decode().strip()
 m['confirmed_by_main_session']="tools/verify_seed2.sh on the tree with the fix: commits: patch applies; go build ./... ok; go test -vet=off -count=1 ./... passes with patch (flaky TestHandlerHandleSignedLatency ignored); TestSeedDemo passes without and fails with the patch"
 json.dump(m,open(sys.argv[2],'w'),indent=1)
 PY
-echo "SEED2 $id: CONFIRMED -> /verif/seeded/$id"
+echo "SEED2 $id: CONFIRMED -> /verif/seeded/$dst"
